@@ -667,6 +667,34 @@ theorem RW_exact :
   refine ⟨_, _, rfl, ?_⟩
   decide
 
+/-- R8 (OPEN; a consequence of 02d463a on RECURSIVE types): 0 never, 1 int, 2 `never | int`,
+3 `(x: never | int)`, 4 `Nil`, 5 `^1`, 6 `(x: int, y: ^1)`, 7 `Nil | (x: int, y: ^1)` (x = 2, y = 3, Nil = 4).
+`intersect_types` takes the variants of 7 one by one; the partial-vs-partial arm copies the field `y: ^1`,
+which only the variant 6 has, into the result `(x: int, y: ^1)` — read outside the union its `^1` has no
+boundary left, and `[x: 0, y: Nil]`, a value of both operands, is refused. `intersect_keeps` is a theorem
+about FIRST-ORDER operands (`FO`: no `Cycle`) and is not contradicted: 7 is recursive. -/
+def tR8 : Table :=
+  ⟨[.union [], .integer, .union [0, 1], .part none [(2, 2)], .tuple 2, .cycle 1,
+    .part none [(2, 1), (3, 5)], .union [4, 6]], [⟨none, []⟩, ⟨some 1, []⟩, ⟨some 4, []⟩]⟩
+
+/-- `[x: 0, y: Nil]` -/
+def vR8 : V := .tup none (.cons (some 2) (.int 0) (.cons (some 3) (.tup (some 4) .nil) .nil))
+
+theorem R8_value_of_both : vR8.wf = true ∧ inhB tR8 8 [] 3 vR8 = true ∧ inhB tR8 8 [] 7 vR8 = true := by
+  decide
+/-- the result is the variant's partial type, and it refuses the value -/
+theorem R8_dropped :
+    ∃ T' r, intersect Variant.current 16 8 tR8 3 7 = some (T', r) ∧
+      T'.types[r]? = some (.part none [(2, 1), (3, 5)]) ∧ inhB T' 16 [] r vR8 = false := by
+  refine ⟨_, _, rfl, ?_⟩
+  decide
+/-- the old rule kept the left operand, which has the value -/
+theorem R8_old_rule_kept_left :
+    (intersect { partialIntersectKeepsLeft := true } 16 8 tR8 3 7).map (·.2) = some 3 := by decide
+/-- the right operand is recursive (closed, `RFO`), not first-order: `intersect_keeps` does not apply -/
+theorem R8_not_first_order : foB tR8 16 7 = false ∧ rfoB tR8 16 7 = true ∧ closedB tR8 16 [] 7 = true := by
+  decide
+
 /-- R2: 0 int, 1 never, 2 `@(never / int)`, 3 `@(int / int)` — the first is assignable to the
 second, a process declared with type 2 inhabits both, yet they "do not overlap" -/
 def tR2 : Table :=
